@@ -35,7 +35,7 @@ Arguments Ok {A} a.
 Arguments Err {A} e.
 
 (** fault oracle *)
-Inductive site := SRename | SOpen | SFstat | SStatDst | SCreate | SCopy | SRemove | STmpRename | STmpRemove.
+Inductive site := SRename | SOpen | SFstat | SStatDst | SCreate | SCopy | SRemove | STmpRename | STmpRemove | SMoveAlias.
 Inductive choice := Pass | Fail (e : err) | Short (n : nat) (e : err).
 Definition faults := site -> choice.
 Definition no_faults : faults := fun _ => Pass.
@@ -278,6 +278,59 @@ Definition move_replace_f (F : faults) (s : fs) (src dst tmp : N) : fs * option 
           end
       end
   end.
+
+(** ** the second alias policy: when the destination IS the source (os.SameFile), CopyFile may refuse
+    (as above: ESAMEFILE) or do nothing and report success — the destination already holds the source's
+    bytes.  [alias_noop] puts that policy in front of either copy strategy [k]: the same three calls
+    (open, src.Stat, os.Stat(dest)) under the same oracle; if they show an alias the result is nil and
+    nothing is touched, otherwise [k] runs (and finds no alias either). *)
+Definition alias_noop (F : faults) (s : fs) (src dst : N) (k : fs * option err) : fs * option err :=
+  match faulty (F SOpen) (open s src) with
+  | Ok si =>
+      match F SFstat with
+      | Pass =>
+          match faulty (F SStatDst) (stat s dst) with
+          | Ok di => if si =? di then (s, None) else k
+          | Err _ => k
+          end
+      | _ => k
+      end
+  | Err _ => k
+  end.
+
+Definition copy_file_n (F : faults) (s : fs) (src dst : N) : fs * option err :=
+  alias_noop F s src dst (copy_file_f F s src dst).
+Definition copy_replace_n (F : faults) (s : fs) (src dst tmp : N) : fs * option err :=
+  alias_noop F s src dst (copy_replace_f F s src dst tmp).
+
+(** MoveFile over a no-op CopyFile must not go on to remove the source when the destination names it:
+    after a failed rename it tests for the alias itself (os.Stat of both paths + os.SameFile; a failing
+    Stat skips the test, site [SMoveAlias]) and returns the rename error. *)
+Definition alias_check (F : faults) (s : fs) (src dst : N) : bool :=
+  match faulty (F SMoveAlias) (stat s src), faulty (F SMoveAlias) (stat s dst) with
+  | Ok a, Ok b => a =? b
+  | _, _ => false
+  end.
+
+Definition move_n (copy : fs * option err) (F : faults) (s : fs) (src dst : N) : fs * option err :=
+  match faulty (F SRename) (rename s src dst) with
+  | Ok s1 => (s1, None)
+  | Err re =>
+      if alias_check F s src dst then (s, Some re)
+      else
+        match copy with
+        | (s1, Some e) => (s1, Some e)
+        | (s1, None) =>
+            match faulty (F SRemove) (remove s1 src) with
+            | Ok s2 => (s2, None)
+            | Err e => (s1, Some e)
+            end
+        end
+  end.
+Definition move_file_n (F : faults) (s : fs) (src dst : N) : fs * option err :=
+  move_n (copy_file_n F s src dst) F s src dst.
+Definition move_replace_n (F : faults) (s : fs) (src dst tmp : N) : fs * option err :=
+  move_n (copy_replace_n F s src dst tmp) F s src dst.
 
 (** without faults *)
 Definition copy_file (s : fs) (src dst : N) : fs * option err := copy_file_f no_faults s src dst.
